@@ -94,6 +94,8 @@ CONSUME_OK = {
     "ResumeStageHandler": [({"stage.status != WorkflowStatus.PAUSED"}, MOOT)],
     "PauseTaskHandler": [({"task.status.is_complete"}, MOOT)],
 }
+# wait sets behind "children still in flight" consume entries: (module, function, variable)
+WAIT_VARS = [("stabilize.handlers.complete_stage.handler", "CompleteStageHandler._handle_with_retry.on_stage", "in_flight_children")]
 CONSUME_MODE = {"CompleteStageHandler": "ret", "JumpToStageHandler": "ret"}      # full condition set too large: early-return tests only
 CONSUME_UNDECIDED = {"StartStageHandler": "condition set too large to enumerate; its consume branches are covered by C04/C11 (claim loser, refused claim) and C05.R5",
                      "RunTaskHandler": "condition set too large to enumerate; covered by C05.R5 (no silent RUNNING) and C02.R3"}
@@ -134,6 +136,40 @@ def _r6(ctx, rep) -> None:
                 rep.notes.append(f"C05.R6 table entry not exercised on this tree: {name} {sorted(facts)}")
     rep.count(consume_probe_paths=n_paths, consume_paths=n_cons)
     rep.floor("consume-only paths examined", n_cons, 30)
+    # wait sets: a handler that consumes its message because "children are still in flight" must only wait for children that
+    # can still send a completion message. A NOT_STARTED child is live only if its StartStage was pushed.
+    from ..statuspred import comprehension_filter, status_set
+    T = ctx.st
+    for (modname, qual, var) in WAIT_VARS:
+        fi_ = ctx.prog.func(modname, qual)
+        asg = [n for n in ast.walk(fi_.node) if isinstance(n, ast.Assign) and len(n.targets) == 1 and norm(n.targets[0]) == var]
+        if not asg:
+            rep.fail("C05.R6", f"wait set `{var}`", f"`{var}` is no longer assigned in {qual}: the reviewed wait condition changed shape", fi_.file, fi_.node.lineno, disc=f"waitvar:{var}:missing")
+            continue
+        for a in asg:
+            v = a.value
+            conditioned = None
+            if isinstance(v, ast.IfExp):
+                empty_else = isinstance(v.orelse, (ast.List, ast.Tuple)) and not v.orelse.elts
+                if empty_else:
+                    conditioned, v = norm(v.test), v.body
+            cf = comprehension_filter(v)
+            if cf is None:
+                rep.fail("C05.R6", f"wait set `{var}`", f"not a filtered comprehension over child stages: {norm(a.value)[:80]}", fi_.file, a.lineno, disc=f"waitvar:{var}:shape")
+                continue
+            g, flt = cf
+            subj = norm(g.target) + ".status"
+            W = status_set(flt, subj, T) if flt is not None else frozenset(T.members)
+            if W is None:
+                rep.fail("C05.R6", f"wait set `{var}`", f"filter `{norm(flt)}` is not a status predicate this checker can evaluate", fi_.file, a.lineno, disc=f"waitvar:{var}:undecidable")
+                continue
+            dead = sorted(W & T.sets["COMPLETED_STATUSES"])
+            rep.check(not dead, "C05.R6", f"`{var}` never waits for a completed child", f"waits for children in {sorted(W)}", fi_.file, a.lineno, disc=f"waitvar:{var}:completed")
+            ok = "NOT_STARTED" not in W or conditioned is not None
+            rep.check(ok, "C05.R6", f"`{var}` counts a NOT_STARTED child as in flight only with evidence that it was started",
+                      (f"NOT_STARTED children count only under `{conditioned}`" if conditioned else f"waits for children in {sorted(W)}") if ok else
+                      f"`{norm(a.value)[:90]}` counts every NOT_STARTED child as in flight: a pre-declared child whose StartStage was never pushed (the stage's own task failed first) sends no completion message, "
+                      "the CompleteStage is consumed and the stage stays RUNNING with an empty queue", fi_.file, a.lineno, disc=f"waitvar:{var}:not-started")
     # the phase enum is closed
     so = [c for m in ctx.prog.modules.values() for c in m.classes.values() if c.name == "SyntheticStageOwner"]
     members = [norm(s_.targets[0]) for s_ in so[0].node.body if isinstance(s_, ast.Assign)] if so else []
@@ -233,6 +269,40 @@ def run(ctx, rep) -> None:
                     rep.check(not bad and not missing, "C05.R2", f"{pi.handler}: {e.get('cls')} chosen under the reference conditions", f"required {req}; path decided {dict((k, got.get(k)) for k in req)}",
                               e.site[0], e.site[1], disc=f"table:{e.get('cls')}:{sorted(bad.items())}:{missing}")
     rep.floor("continuation choices checked against the decision table", nt, 10)
+
+    # ---- R3b: a completion pushed UPWARD (to the parent of a synthetic stage) is effective ---------------------------
+    # CompleteStage(parent) only acts when the parent's determine_status() is not RUNNING. A child that ended in a
+    # continuable status leaves the parent's own tasks / later children unstarted, so determine_status() says RUNNING and
+    # the message is dropped as stale: the parent must be continued with ContinueParentStage instead.
+    CONT = T.sets["CONTINUABLE_STATUSES"]
+    nu = 0
+    for pi in infos:
+        for c in pi.seq:
+            if c.kind != "TXN":
+                continue
+            commit_ev = pi.trace[c.index]
+            for e in c.effects:
+                if e.kind != "push" or e.get("cls") != "CompleteStage" or not str(e.get("stage_id")).endswith(".parent_stage_id"):
+                    continue
+                stores = [x for x in c.effects if x.kind == "store_stage" and x.get("own")]
+                if not stores:
+                    continue
+                st_at = [m for (k, m, oid) in (commit_ev.get("owns") or ()) if k == "stage" and str(oid) == str(stores[-1].get("oid"))]
+                if not st_at:
+                    continue
+                final = st_at[0]
+                nu += 1
+                key = ("up", pi.handler, tuple(sorted(final)))
+                if key in seen:
+                    continue
+                seen.add(key)
+                ok = not (final <= CONT)
+                rep.check(ok, "C05.R3", f"{pi.handler}: CompleteStage pushed to the parent of a synthetic stage stored as {sorted(final)}",
+                          "the child halted: the parent's determine_status() is a halt status and the message completes it" if ok else
+                          "the child ended in a continuable status, so the parent's own tasks (before-phase) or remaining children are still NOT_STARTED, determine_status() returns RUNNING and "
+                          "CompleteStageHandler drops this message as stale: nothing starts the parent's tasks and the workflow stays RUNNING with an empty queue (ContinueParentStage is the message that continues a parent)",
+                          e.site[0], e.site[1], disc=f"upward-complete:{','.join(sorted(final))}")
+    rep.floor("upward CompleteStage pushes examined", nu, 3)
 
     # ---- R3 continuation effectiveness ------------------------------------------------------------------
     n3 = 0
